@@ -592,7 +592,7 @@ main(int argc, char **argv)
 			walk = atol(a1);
 			step = 0;
 			signal(SIGALRM, on_alarm);
-			alarm(90);
+			alarm(60);
 			printf("B %ld\n", walk);
 			fflush(stdout);
 			memset(ops, 0, sizeof(ops));
